@@ -43,6 +43,8 @@ func sym(v reflect.Value) string {
 	switch v.Kind() {
 	case reflect.Int, reflect.Int64, reflect.Int32:
 		return vrt.Sym(int(v.Int()))
+	case reflect.Uint8:
+		return vrt.Sym(int(v.Uint()))
 	case reflect.String:
 		return v.String()
 	case reflect.Bool:
@@ -181,6 +183,8 @@ func fill(v reflect.Value, vec int, counter *int) {
 				case reflect.Struct:
 					e.Field(0).SetInt(val)
 					e.Field(1).SetString(fmt.Sprintf("m%d", val))
+				case reflect.Uint8:
+					e.SetUint(uint64(val % 200))
 				default:
 					e.SetInt(val)
 				}
@@ -350,6 +354,8 @@ func runOne(enc *json.Encoder, pr prog, fn reflect.Value, ft reflect.Type, args 
 					e.Set(pv)
 				case reflect.Struct:
 					e.Field(0).SetInt(555)
+				case reflect.Uint8:
+					e.SetUint(255)
 				default:
 					e.SetInt(555)
 				}
